@@ -73,6 +73,8 @@ def task_specs(draw, layout, light=False, allow_bad=True, jsrun=False, heavy=Fal
             spec['exclusive'] = draw(st.booleans())
     if draw(st.integers(0, 3)) == 0:
         spec['priority'] = draw(st.integers(-1, 2))
+    if draw(st.integers(0, 7)) == 0:
+        spec['old_names'] = True      # written with the deprecated attribute names
     return spec
 
 
